@@ -105,6 +105,8 @@ struct Ctx {
   class_is_enum: bool,
   /// generate no printing / calling code (used where a recorded finding drops effects)
   no_effects: bool,
+  /// inside `cmp` itself: no cmp calls (they would recurse without fuel)
+  in_cmp: bool,
 }
 
 const STRS: &[&str] = &["", "a", "hello", "x y", "samlang", "0", "-7", "end."];
@@ -486,6 +488,7 @@ impl<'t> Gen<'t> {
       class_generic: fs.is_method && !fs.class_tparams.is_empty(),
       class_is_enum: fs.is_method && self.classes.iter().any(|c| c.module == fs.module && c.name == fs.class && matches!(c.typedef, TypeDef::Enum(_))),
       no_effects: false,
+      in_cmp: fs.name == "cmp",
     };
     self.budget = self.cfg.node_budget / 3;
     let body = if let Some(fi) = fs.fuel {
@@ -631,7 +634,7 @@ impl<'t> Gen<'t> {
 
   fn main_class(&mut self, module: &[String]) -> Class {
     let mut stmts = vec![];
-    let mut cx = Ctx { env: vec![], this: None, tparams: vec![], rec: None, rec_used: false, in_lambda: false, bounded: vec![], class_generic: false, class_is_enum: false, no_effects: false };
+    let mut cx = Ctx { env: vec![], this: None, tparams: vec![], rec: None, rec_used: false, in_lambda: false, bounded: vec![], class_generic: false, class_is_enum: false, no_effects: false, in_cmp: false };
     self.budget = self.cfg.node_budget;
     let funs: Vec<FunSig> = self.funs.clone();
     // call every member at least once where its arguments can be built, print what can be printed
@@ -1296,7 +1299,7 @@ impl<'t> Gen<'t> {
 
   /// `a.cmp(b)` on two values whose type is bounded by / implements Cmp
   fn cmp_call(&mut self, cx: &mut Ctx) -> Option<Expr> {
-    if !self.has_cmp {
+    if !self.has_cmp || cx.in_cmp {
       return None;
     }
     let mut tys: Vec<Ty> = vec![];
